@@ -161,6 +161,28 @@ def analyse_unit(repo: Path, pkg: str, mods: dict, agents: set[str], helper_rng:
                             rt = root_chain(e)
                             if rt and rt[0] == "self" and len(rt[1]) == 1 and rt[1][0] not in ("_config", "_task"):
                                 (cfg_attr_alias if rc[1][0] == "_config" else task_attr_alias).add(rt[1][0])
+    # private attributes bound to a SHALLOW copy of the configuration / task (`self._config.model_copy()`, `copy.copy(self._config)`):
+    # assigning a field of the copy is private, but its list / dict / sub-model values are still the caller's objects
+    cfg_shallow, task_shallow = set(), set()
+
+    def shallow_of(v):
+        if isinstance(v, ast.Call):
+            if isinstance(v.func, ast.Attribute) and v.func.attr in ("model_copy", "copy") and not any(kw.arg == "deep" for kw in v.keywords):
+                rc = root_chain(v.func.value)
+                if rc and rc[0] == "self" and rc[1] in (["_config"], ["_task"]):
+                    return rc[1][0]
+            if U(v.func) in ("copy.copy", "copy") and len(v.args) == 1:
+                rc = root_chain(v.args[0])
+                if rc and rc[0] == "self" and rc[1] in (["_config"], ["_task"]):
+                    return rc[1][0]
+        return None
+    for path, tree in mods.items():
+        for n in ast.walk(tree):
+            if isinstance(n, ast.Assign) and shallow_of(n.value):
+                for t in n.targets:
+                    rt = root_chain(t)
+                    if rt and rt[0] == "self" and len(rt[1]) == 1:
+                        (cfg_shallow if shallow_of(n.value) == "_config" else task_shallow).add(rt[1][0])
     for path, tree in mods.items():
         rel = str(path.relative_to(repo))
         aliases = import_aliases(tree)
@@ -177,7 +199,17 @@ def analyse_unit(repo: Path, pkg: str, mods: dict, agents: set[str], helper_rng:
         for qual, fn in fv.funcs:
             # local aliases of config/task fields and of agent positions (flow-insensitive within the function)
             cfg_alias, task_alias, pos_alias = set(), set(), set()
+            cfg_shallow_loc, task_shallow_loc = set(), set()
             for n in own_nodes(fn):
+                if isinstance(n, ast.Assign) and len(n.targets) == 1 and isinstance(n.targets[0], ast.Name) and shallow_of(n.value):
+                    (cfg_shallow_loc if shallow_of(n.value) == "_config" else task_shallow_loc).add(n.targets[0].id)
+                if isinstance(n, ast.Assign) and len(n.targets) == 1 and isinstance(n.targets[0], ast.Name) and is_uncopied(n.value):
+                    rc0 = root_chain(n.value)
+                    # a field of a shallow copy, bound to a local name: still the caller's object
+                    if rc0 and rc0[0] == "self" and len(rc0[1]) >= 2 and rc0[1][0] in cfg_shallow:
+                        cfg_alias.add(n.targets[0].id)
+                    if rc0 and rc0[0] == "self" and len(rc0[1]) >= 2 and rc0[1][0] in task_shallow:
+                        task_alias.add(n.targets[0].id)
                 if isinstance(n, ast.Assign) and len(n.targets) == 1 and isinstance(n.targets[0], ast.Name) and is_uncopied(n.value):
                     rc = root_chain(n.value)
                     if rc and rc[0] == "self" and rc[1][:1] == ["_config"] and len(rc[1]) > 1:
@@ -255,6 +287,10 @@ def analyse_unit(repo: Path, pkg: str, mods: dict, agents: set[str], helper_rng:
                                 facts["cfgWrites"].append({"what": "alias " + U(n.func), "where": where})
                             elif rc[0] in task_alias:
                                 facts["taskWrites"].append({"what": "alias " + U(n.func), "where": where})
+                            elif (rc[0] == "self" and len(rc[1]) >= 2 and rc[1][0] in cfg_shallow) or (rc[0] in cfg_shallow_loc and rc[1]):
+                                facts["cfgWrites"].append({"what": "through a shallow copy " + U(n.func), "where": where})
+                            elif (rc[0] == "self" and len(rc[1]) >= 2 and rc[1][0] in task_shallow) or (rc[0] in task_shallow_loc and rc[1]):
+                                facts["taskWrites"].append({"what": "through a shallow copy " + U(n.func), "where": where})
                             elif rc[0] != "self" and any(a in CORE_ATTRS for a in rc[1]):
                                 facts["coreStores"].append({"what": U(n.func), "where": where})
                             elif rc[0] in pos_alias and not rc[1]:
@@ -292,6 +328,10 @@ def analyse_unit(repo: Path, pkg: str, mods: dict, agents: set[str], helper_rng:
                         facts["cfgWrites"].append({"what": "attribute alias " + U(t), "where": where})
                     elif base == "self" and len(chain) > 1 and chain[0] in task_attr_alias:
                         facts["taskWrites"].append({"what": "attribute alias " + U(t), "where": where})
+                    elif (base == "self" and len(chain) >= 3 and chain[0] in cfg_shallow) or (base in cfg_shallow_loc and len(chain) >= 2):
+                        facts["cfgWrites"].append({"what": "through a shallow copy " + U(t), "where": where})
+                    elif (base == "self" and len(chain) >= 3 and chain[0] in task_shallow) or (base in task_shallow_loc and len(chain) >= 2):
+                        facts["taskWrites"].append({"what": "through a shallow copy " + U(t), "where": where})
                     elif base in cfg_alias and chain:
                         facts["cfgWrites"].append({"what": "alias " + U(t), "where": where})
                     elif base in task_alias and chain:
